@@ -41,7 +41,8 @@ VALUES = [
     ('null', 'null'), ('true', 'bool'), ('false', 'bool'),
     ('""', 'str'), ('"a"', 'str'), ('"é日\U0001d11e"', 'str'), ('"' + '1' * 31 + 'é"', 'str'),
     ('"' + '7' * 32 + '"', 'str'), ('"' + 'f' * 33 + '"', 'str'), ('"' + '0' * 42 + '日"', 'str'),
-    ('"%.70000f"', 'str'), ('"%-5s%*d%(k)s"', 'str'), ('" \\t\\n"', 'str'), ('"{\\"a\\": [1, 2"', 'str'),
+    ('"%.70000f"', 'str'), ('"%-5s%*d%(k)s"', 'str'), ('"%.0g|%.0e|%#.0f|%.0G"', 'str'), ('"%0*.*d|%+ 05x|%#o|%c"', 'str'),
+    ('"%(a)5s|%(a).0g|%(a)-08.3e"', 'str'), ('" \\t\\n"', 'str'), ('"{\\"a\\": [1, 2"', 'str'),
     ('"a: &x [*x]"', 'str'), ('"-"', 'str'), ('"\\u0000\\u001f"', 'str'),
     ('0', 'num'), ('-0', 'num'), ('5e-324', 'num'), ('1.7976931348623157e308', 'num'), ('-1.7976931348623157e308', 'num'),
     ('9007199254740991', 'num'), ('9007199254740992', 'num'), ('9007199254740993', 'num'),
@@ -61,12 +62,19 @@ def classify(res):
     return f[0]
 
 
-def is_resource(res, args):
-    """crash/timeout attributable to asking for an astronomically large result (outside every model)"""
+def is_resource(res, args, src=None):
+    """crash/timeout attributable to asking for an astronomically large result (outside every model).
+    Only when the input actually contains a huge count: an allocation failure / capacity overflow on
+    small arguments (e.g. a wrapped subtraction used as a repeat count) is a crash like any other."""
     txt = res.lower()
+    huge = any(HUGE.match(a) for a in args)
+    if src is not None:
+        huge = huge or bool(re.search(rb'\d{6,}|\d[eE]\+?\d', src))
+    if not huge:
+        return False
     if any(k in txt for k in KNOWN_RESOURCE):
         return True
-    if res.startswith('TIMEOUT') and any(HUGE.match(a) for a in args):
+    if res.startswith('TIMEOUT'):
         return True
     return False
 
@@ -182,7 +190,7 @@ def run_cases(run, impl_exe, cases, label, shards, mem):
         f = r.split('\t')
         if cls in ('PANIC', 'CRASH', 'TIMEOUT', 'NOOUTPUT'):
             args = meta.get('args', [])
-            if is_resource(r, args):
+            if is_resource(r, args, meta.get('src')):
                 run.count(label + '_resource_exhaustion(outside model)')
                 continue
             key, what = finding_key(meta, r)
